@@ -686,6 +686,29 @@ pub fn families(tier: Tier, for_c11: bool) -> Vec<Family> {
             }
             fams.push(Family { name: "raw/preempt-inside-critical-sections", setups, bound: Some(tier.pick(2, 3)), cap: 100_000 });
         }
+        // other chunk sizes (the families above fix c = 2): a handful of programs whose write sizes
+        // are relative to the chunk size, for c in {1, 8, 4096, 65536}, environment choices on
+        {
+            let mut setups: Vec<Setup> = Vec::new();
+            for cc in [1usize, 8, 4096, 65_536] {
+                let small = (cc / 8).max(1);
+                for p in [
+                    vec![POp::W(small), POp::F],
+                    vec![POp::W(cc)],
+                    vec![POp::W(cc + 1), POp::F],
+                    vec![POp::W(small), POp::F, POp::W(small), POp::F],
+                    vec![POp::W(small), POp::F, POp::Wait, POp::W(cc - small.min(cc - 1).min(cc)), POp::F],
+                    vec![POp::W(cc), POp::A],
+                    vec![POp::W(small), POp::F, POp::A],
+                    vec![POp::W(2 * cc), POp::Wait],
+                ] {
+                    let mut s = mk(p, WakerPolicy::Choose, 1, 1, None, false, false);
+                    s.chunk = cc;
+                    setups.push(s);
+                }
+            }
+            fams.push(Family { name: "raw/chunk-sizes", setups, bound: Some(tier.pick(2, 3)), cap: 100_000 });
+        }
         // abort programs
         fams.push(Family { name: "raw/abort", setups: programs(&alpha_abort, tier.pick(3, 4)).into_iter().filter(|p| p.contains(&POp::A)).map(|p| mk(p, WakerPolicy::Choose, 1, 1, None, false, false)).collect(), bound: tier.pick(Some(2), None), cap: 200_000 });
         if tier == Tier::Thorough {
